@@ -17,6 +17,8 @@ structure DSt where
   f : FinDag
   sched : List Tok
   fsched : List FTok := []
+  /-- final state of the previous `run`, per variant -/
+  last : List (String × Cfg × S) := []
 
 def DSt.init : DSt :=
   { f := { n := 0, slots := [], down := [], starters := [], onExec := [], fails := [], rank := [] }, sched := [] }
@@ -219,9 +221,21 @@ def step' (s : DSt) (ws : List String) : DSt × List String :=
       [("P", Cfg.pinned), ("R", Cfg.repaired),
        ("X", { reportExecFailure := true, startAborts := true }),
        ("Y", { reportExecFailure := false, startAborts := false })]
-    (s, [s!"wf {s.f.check}"] ++ (variants.map fun (t, c) =>
+    let results := variants.map fun (t, c) =>
       let (st, fin) := drive c d fuel (init d) s.sched 0
-      report t s.f st fin).flatten)
+      (t, c, st, fin)
+    ({ s with last := results.map fun (t, c, st, _) => (t, c, st) },
+     [s!"wf {s.f.check}"] ++ (results.map fun (t, _, st, fin) => report t s.f st fin).flatten)
+  | ["rerun"] =>
+    -- the composite is run again: new fault set / executor assignment / schedule were sent before
+    let d := s.f.toDag
+    let fuel := 4 * (s.f.n + 2) * (s.f.n + 2) + 16
+    let results := (s.last.map fun (t, c, s1) =>
+      [false, true].map fun reset =>
+        let d' := rerunDag d s1 d.fails d.onExec
+        let (st, fin) := drive c d' fuel (restart reset d s1 d.fails d.onExec) s.sched 0
+        (t ++ (if reset then "z" else "k"), st, fin)).flatten
+    (s, (results.map fun (t, st, fin) => report t s.f st fin).flatten)
   | _ => (s, ["bad-op"])
 
 def main : IO Unit := Proto.run DSt.init step'
